@@ -419,20 +419,38 @@ def evalStep (C : Ctx) (rec : Oracle) : Expr → M Val
       | some k => pure (.int k)
       | none => fail ("unknown enumerator " ++ name)
     | none => fail ("unknown enumeration " ++ ns)
-  | .call k name args => do
+  | .call .function name args => do
     let kw ← evalArgs rec args
-    match k with
-    | .function =>
-      match findCallable C (fun f => f.kind = .function ∧ f.name = name) with
-      | some f => invoke rec .function f.body kw .none
-      | none => fail ("unknown function " ++ name)
-    | .implicit ns | .classOp ns | .bridge ns =>
-      match resolveNs C ns name with
-      | some f =>
-        match f.kind with
-        | .bridge _ => invoke rec .function f.body kw .none
-        | _ => invoke rec .operation f.body kw .none
-      | none => fail ("unknown " ++ ns ++ "::" ++ name)
+    match findCallable C (fun f => f.kind = .function ∧ f.name = name) with
+    | some f => invoke rec .function f.body kw .none
+    | none => fail ("unknown function " ++ name)
+  -- `NS::f()` (accept_ImplicitInvocationNode: find_symbol(NS, ['external entity', 'class'])) and `bridge NS::f()`
+  -- (accept_BridgeInvocationNode: find_symbol(NS, 'external entity'), which falls back to find_class when NS names no
+  -- external entity): the parameters first, then a bridge of NS, else the class-based operation of the class NS
+  | .call (.implicit ns) name args => do
+    let kw ← evalArgs rec args
+    match resolveNs C ns name with
+    | some f =>
+      match f.kind with
+      | .bridge _ => invoke rec .function f.body kw .none
+      | _ => invoke rec .operation f.body kw .none
+    | none => fail ("unknown " ++ ns ++ "::" ++ name)
+  | .call (.bridge ns) name args => do
+    let kw ← evalArgs rec args
+    match resolveNs C ns name with
+    | some f =>
+      match f.kind with
+      | .bridge _ => invoke rec .function f.body kw .none
+      | _ => invoke rec .operation f.body kw .none
+    | none => fail ("unknown " ++ ns ++ "::" ++ name)
+  -- `transform KL::op()` (accept_ClassInvocationNode: find_symbol(KL, 'class')): the CLASS only — a bridge `op` of an external
+  -- entity with the same key letters is not considered — and the look-up BEFORE the parameters are evaluated
+  | .call (.classOp ns) name args =>
+    match findCallable C (fun f => f.kind = .classOp ns ∧ f.name = name) with
+    | some f => do
+      let kw ← evalArgs rec args
+      invoke rec .operation f.body kw .none
+    | none => fail ("unknown " ++ ns ++ "::" ++ name)
   | .callInst h name args => do
     let hv ← rec.eval h
     let i ← asInst hv
